@@ -129,6 +129,7 @@ package bam
 //@   decoder
 //@   requires br.h != nil && br.r != nil
 //@   requires br.c != nil ==> (0 <= br.c.End.File && br.c.End.File < 140737488355328)
+//@   ensures[C11] @record result1 == nil ==> result0 != nil
 //@   ensures[C11] @wholerecord (result1 == nil && br.omit < 2) ==> (result0 != nil && result0.Seq.Length >= 0 &&
 //@       len(result0.Seq.Seq) == div(result0.Seq.Length + 1, 2) && len(result0.Qual) == result0.Seq.Length)
 //@ func vOffset
@@ -158,3 +159,57 @@ package bam
 //@   ensures[C18] @ref (m.refLinks != nil && old(rec.Ref) != nil) ==> rec.Ref == m.refLinks[id][int(old(rec.Ref.id))]
 //@   ensures[C18] @mate (m.refLinks != nil && old(rec.MateRef) != nil) ==> rec.MateRef == m.refLinks[id][int(old(rec.MateRef.id))]
 //@   ensures[C18] @single m.refLinks == nil ==> (rec.Ref == old(rec.Ref) && rec.MateRef == old(rec.MateRef))
+
+// Merger.Read, cat and nextBySortOrder (C18): an input's read error is
+// reported, not dropped. The ghost variable rerr holds what the source reader
+// returned in this call.
+//@ spec func readersOK(m *Merger) bool = forall k in 0..len(m.readers) :: (m.readers[k] != nil && m.readers[k].r != nil &&
+//@     m.readers[k].r.h != nil && m.readers[k].r.r != nil &&
+//@     (m.readers[k].r.c != nil ==> (0 <= m.readers[k].r.c.End.File && m.readers[k].r.c.End.File < 140737488355328)))
+//@ func Merger.Read
+//@   mode int
+//@   props C18
+//@   requires m != nil && readersOK(m) && (m.less != nil ==> headsOK(m))
+//@   modifies all(m), objects(reader), objects(Reader), objects(sam.Record), arrays(*reader)
+//@ func Merger.cat
+//@   mode int
+//@   props C18
+//@   assumes pre Merger.reassignReference
+//@   requires m != nil && len(m.readers) > 0 && readersOK(m) && m.less == nil
+//@   modifies all(m), objects(reader), objects(Reader), objects(sam.Record), arrays(*reader)
+//@   ghost rerr error
+//@   at stmt "rec, err = m.readers[0].r.Read()" ghost rerr = ret1
+//@   ensures[C18] @reported (rerr != nil && rerr != io.EOF) ==> result1 != nil
+
+// The heap operations go through container/heap and the package's own
+// Push/Pop/Less/Swap methods; they are assumed to move readers between the
+// heap and the caller without changing them: pop hands out one of the queued
+// readers, which is then no longer queued (each reader is queued once: NewMerger
+// queues the addresses of the elements of one slice), push queues one more.
+//@ spec func headsOK(m *Merger) bool = forall k in 0..len(m.readers) :: (m.readers[k].head != nil && m.readers[k].err == nil)
+//@ spec func readerOK(x *reader) bool = x != nil && x.r != nil && x.r.h != nil && x.r.r != nil &&
+//@     (x.r.c != nil ==> (0 <= x.r.c.End.File && x.r.c.End.File < 140737488355328))
+//@ trusted func Merger.pop
+//@   requires m != nil && len(m.readers) > 0
+//@   modifies m.readers, arrays(*reader)
+//@   ensures old(readersOK(m)) ==> (readersOK(m) && readerOK(result))
+//@   ensures old(headsOK(m)) ==> (headsOK(m) && result.head != nil && result.err == nil)
+//@   ensures len(m.readers) == old(len(m.readers)) - 1
+//@   ensures forall k in 0..len(m.readers) :: m.readers[k] != result
+//@ trusted func Merger.push
+//@   requires m != nil && r != nil
+//@   modifies m.readers, arrays(*reader)
+//@   ensures (old(readersOK(m)) && readerOK(r)) ==> readersOK(m)
+//@   ensures (old(headsOK(m)) && r.head != nil && r.err == nil) ==> headsOK(m)
+//@   ensures len(m.readers) == old(len(m.readers)) + 1
+//@ func Merger.nextBySortOrder
+//@   mode int
+//@   props C18
+//@   assumes pre Merger.reassignReference
+//@   requires m != nil && len(m.readers) > 0 && readersOK(m) && headsOK(m)
+//@   modifies all(m), objects(reader), objects(Reader), objects(sam.Record), arrays(*reader)
+//@   ghost rerr error
+//@   at stmt "reader.head, reader.err = reader.r.Read()" ghost rerr = reader.err
+//@   ensures[C18] @reported (rerr != nil && rerr != io.EOF) ==> result1 != nil
+//@   ensures[C18] @heads headsOK(m)
+//@   ensures[C18] @record result0 != nil
